@@ -167,7 +167,7 @@ func (fr *former) norm(e ast.Expr, at Point, vars *[]*types.Var) string {
 	if strings.Contains(s, "local:") {
 		ast.Inspect(e, func(x ast.Node) bool {
 			if id, ok := x.(*ast.Ident); ok {
-				if v := fr.g.localVar(id); v != nil && strings.Contains(s, "local:"+v.Name()+"<") {
+				if v := fr.g.localVar(id); v != nil && strings.Contains(s, "local:"+fr.g.Fn.LocalName(v)+"<") {
 					*vars = append(*vars, v)
 				}
 			}
@@ -304,7 +304,7 @@ func (fr *former) form(e ast.Expr, pol bool, at Point) *Form {
 						return fr.atom(fr.norm(d.RHS, d.At, &vars)+"#"+itoa(d.Index), pol, vars)
 					}
 				}
-				return fr.atom("local:"+v.Name()+"<"+TypeStr(v.Type())+">", pol, []*types.Var{v})
+				return fr.atom("local:"+f.LocalName(v)+"<"+TypeStr(v.Type())+">", pol, []*types.Var{v})
 			}
 		}
 	}
@@ -621,7 +621,7 @@ func (g *Graph) DominatedFrom(from, site Point, pats []string) bool {
 // VarForms returns the normal forms under which variable v may appear in
 // atoms: its local form and the expansion of each of its definitions.
 func (g *Graph) VarForms(v *types.Var) []string {
-	out := []string{"local:" + v.Name() + "<" + TypeStr(v.Type()) + ">"}
+	out := []string{"local:" + g.Fn.LocalName(v) + "<" + TypeStr(v.Type()) + ">"}
 	if s, ok := g.Fn.paramName(v); ok {
 		out = append(out, s)
 	}
